@@ -306,13 +306,20 @@ def r74(ctx):
 
 
 # ------------------------------------------------------------------ R7.5
-SETUP_ROLES = {"holder_shutdown_script": ("local_shutdown_script", "remote_shutdown_script"),
-               "counterparty_shutdown_script": ("remote_shutdown_script", "local_shutdown_script")}
+# which request field feeds which stored ChannelSetup field (by field name of the SetupChannel request)
+SETUP_FIELDS = {"is_outbound", "channel_value", "push_value", "funding_txid", "funding_txout", "to_self_delay",
+                "remote_to_self_delay", "local_shutdown_script", "remote_shutdown_script", "remote_basepoints",
+                "remote_funding_pubkey", "channel_type"}
+SCRIPT_ROLES = {"holder_shutdown_script": {"local_shutdown_script"}, "counterparty_shutdown_script": {"remote_shutdown_script"}}
+DELAY_ROLES = {"holder_selected_contest_delay": {"to_self_delay"}, "counterparty_selected_contest_delay": {"remote_to_self_delay"}}
 
 
-def r75(ctx):
-    ctx.rule("R7.5", "the handler stores the request's own (local) upfront shutdown script as the holder's: value and "
-                     "presence of ChannelSetup.holder_shutdown_script come from local_shutdown_script only")
+def _request_fields(rendered):
+    import re
+    return {t for t in re.findall(r"\.(\w+)", rendered) if t in SETUP_FIELDS}
+
+
+def setup_roles(ctx, rid, roles, why):
     p = ctx.prog
     sites = 0
     # every construction of a ChannelSetup in the protocol signer (today: the SetupChannel arm of ChannelHandler::do_handle)
@@ -325,20 +332,27 @@ def r75(ctx):
             continue
         sites += 1
         for f, o in zip(st.rv.a[3], st.rv.ops):
-            if f not in SETUP_ROLES:
+            if f not in roles:
                 continue
-            want, other = SETUP_ROLES[f]
+            want = roles[f]
             root, defs, sw = R.conditional_defs(fv, o)
-            vals = [render(e) for _, ops in defs for e in ops]
-            conds = [render(e) for _, e in sw]
-            some = [v for v in vals if want in v]
-            ok_val = bool(some) and not any(other in v for v in vals)
-            ctx.ob("R7.5", ok_val, f"{b.name}/ChannelSetup.{f}/value",
-                   f"ChannelSetup.{f} is built from {[v[:80] for v in vals]} (expected the request's {want} only)",
-                   where=f"{b.file}:{st.line}", sample=f"{f} <- {want}")
-            ok_c = all(want in c and other not in c for c in conds) and (bool(conds) or len(defs) == 1)
-            ctx.ob("R7.5", ok_c, f"{b.name}/ChannelSetup.{f}/presence",
-                   f"whether ChannelSetup.{f} is set is decided by {[c[:100] for c in conds]} (expected a test of the "
-                   f"request's {want} only): a script the node fixed can be dropped, or an absent one invented",
-                   where=f"{b.file}:{st.line}", sample=f"presence of {f} <- {want}")
-    ctx.floor("R7.5", "ChannelSetup constructions in the protocol signer", sites, 1)
+            vals = set()
+            for _, ops in defs:
+                for e in ops:
+                    vals |= _request_fields(render(e))
+            conds = set()
+            for _, e in sw:
+                conds |= _request_fields(render(e))
+            ctx.ob(rid, vals == want, f"{b.name}/ChannelSetup.{f}/value",
+                   f"ChannelSetup.{f} is built from the request's {sorted(vals) or 'nothing'} (expected {sorted(want)}): {why}",
+                   where=f"{b.file}:{st.line}", sample=f"{f} <- {sorted(want)}")
+            ctx.ob(rid, conds <= want and (bool(sw) or len(defs) == 1), f"{b.name}/ChannelSetup.{f}/presence",
+                   f"which value ChannelSetup.{f} takes is decided by the request's {sorted(conds)} (expected a test of "
+                   f"{sorted(want)} only): {why}", where=f"{b.file}:{st.line}", sample=f"presence of {f} <- {sorted(want)}")
+    ctx.floor(rid, "ChannelSetup constructions in the protocol signer", sites, 1)
+
+
+def r75(ctx):
+    ctx.rule("R7.5", "the handler stores the request's own (local) upfront shutdown script as the holder's: value and "
+                     "presence of ChannelSetup.holder_shutdown_script come from local_shutdown_script only")
+    setup_roles(ctx, "R7.5", SCRIPT_ROLES, "a script the node fixed can be dropped, replaced or invented")
